@@ -7,9 +7,13 @@ package e2e
 // concurrent writers, send queues, resets, application closes and engine stop.
 
 import (
+	"fmt"
 	"testing"
 
+	"github.com/lesismal/nbio"
+
 	"verif/harness/common"
+	"verif/harness/core"
 	"verif/harness/stream"
 	simrt "verif/sim/rt"
 )
@@ -19,9 +23,15 @@ type OwnE2E struct {
 	Stream *stream.OwnCase `json:"stream,omitempty"`
 	WS     *WSCase         `json:"ws,omitempty"`
 	HTTP   *HTTPCase       `json:"http,omitempty"`
+	Out    *core.OutCase   `json:"out,omitempty"`
 }
 
 func genOwnE2E(r *simrt.Rand, tier string, idx int) *OwnE2E {
+	if idx%16 == 15 {
+		// the core engine's write queue: the outbound scenarios of C01 with the tracker as
+		// mempool.DefaultMemPool and an OnWrittenSize hook that reads what it is given
+		return &OwnE2E{Out: core.Prop("C01").Gen(r, tier, idx).(*core.OutCase)}
+	}
 	switch idx % 4 {
 	case 2:
 		c := genWSCase(r, tier)
@@ -45,6 +55,21 @@ func runOwnE2E(t *testing.T, ci interface{}, trace bool) *common.Outcome {
 		o = runWSAs(t, c.WS, trace, "C11")
 	case c.HTTP != nil:
 		o = runHTTPAs(t, c.HTTP, trace, "C11")
+	case c.Out != nil:
+		untrack := tracking(true)
+		stale := ""
+		core.OnWritten = func(nc *nbio.Conn, b []byte, n int) {
+			if stale == "" && n <= len(b) && stream.HasPoison(b[:n]) {
+				stale = fmt.Sprintf("the OnWrittenSize hook was given %d bytes that carry the poison of a freed pool buffer: the queue entry had been released before the hook looked at it", n)
+			}
+		}
+		o = core.Prop("C01").Run(t, c.Out, trace)
+		core.OnWritten = nil
+		untrack(o, "C11")
+		if stale != "" && (o.V == nil || o.V.Oracle != "buffer-ownership") {
+			o.V = nil
+			o.Fail("buffer-ownership", "read-after-free", "[mempool.DefaultMemPool] %s", stale)
+		}
 	default:
 		return &common.Outcome{Infra: "empty C11 case"}
 	}
@@ -72,6 +97,12 @@ func shrinkOwnE2E(ci interface{}) []interface{} {
 	case c.HTTP != nil:
 		for _, x := range shrinkHTTP(c.HTTP) {
 			out = append(out, &OwnE2E{HTTP: x.(*HTTPCase)})
+		}
+	case c.Out != nil:
+		if sh := core.Prop("C01").Shrink; sh != nil {
+			for _, x := range sh(c.Out) {
+				out = append(out, &OwnE2E{Out: x.(*core.OutCase)})
+			}
 		}
 	}
 	return out
